@@ -329,6 +329,33 @@ func crossPkgAccessProgs(e *Env) []*Program {
 		b.P.Feat = map[string]string{"matrix": "xpkg", "what": "struct provider \"*\" with unexported field of another package"}
 		progs = append(progs, b.P)
 	}
+	for _, v := range []string{"func", "struct", "visible"} {
+		// a set of package liby lists a provider that lives in liby/internal/impl
+		b := NewPB("xp_internal_"+v, "app", "liby", "impl", "libt")
+		b.P.Pkgs[2].Dir = "liby/internal/impl"
+		if v == "visible" {
+			// control: the internal directory belongs to a tree the injector's package is part of
+			b.P.Pkgs[2].Dir = "internal/impl"
+		}
+		a := b.Carrier(3, "A")
+		var members []Ref
+		result := a
+		switch v {
+		case "func", "visible":
+			members = []Ref{ItemRef(b.Func(2, "NewA", a, false, false).ID)}
+		case "struct":
+			sd := b.NamedOf(2, "S", StructOf(FieldT{Name: "A", Ty: a}), "none")
+			bt := b.Carrier(3, "B")
+			members = refs(b.Func(3, "NewA", a, false, false), b.Struct(sd, true), b.Func(1, "NewB", bt, false, false, sd))
+			result = bt
+		}
+		set := b.Set(1, "Set", members...)
+		b.Inj("Init", result, false, false, nil, SetRef(set.ID))
+		b.P.Note = "xpkg-internal-" + v
+		b.P.RejectOK = v != "visible"
+		b.P.Feat = map[string]string{"matrix": "xpkg", "what": "provider in an internal package: " + v}
+		progs = append(progs, b.P)
+	}
 	{
 		// control: everything exported
 		b := NewPB("xp_ok", "app", "libx")
